@@ -20,7 +20,7 @@ LEVEL_NOTE = ("the proof covers the bookkeeping (structure handed to the analyse
 MODULE = "SysLoss.Props.C16"
 THEOREMS = [
     "SysLoss.C16.names_factor", "SysLoss.C16.rel_factors", "SysLoss.C16.phase_lkup_factors",
-    "SysLoss.C16.noops_invisible", "SysLoss.C16.factors_nonvacuous",
+    "SysLoss.C16.noops_invisible", "SysLoss.C16.factors_nonvacuous", "SysLoss.C16.toSSys_node",
 ]
 RULE = ("random edit histories of 5-50 calls (all six methods, ~20% rejected and dropped, components with limits and interpolation "
         "tables, phases, groups, rails, a PMux in ~50%) with forced coverage of: rename through change_comp, deletion with and "
@@ -535,7 +535,7 @@ def run_corpus(ctx):
 
 def run(ctx):
     run_corpus(ctx)
-    n = ctx.n(150, 4500)
+    n = ctx.n(150, 2600)
     for k in range(n):
         r = gen_history(ctx)
         check_history(ctx, r, "main", diag=(k % 12 == 0))
